@@ -692,6 +692,12 @@ func (root *Root) resolveReflect(
 	field *Field,
 	t Type) (value interface{}, ea []error) {
 
+	if obj == nil {
+		// Nothing to reflect on, most likely a root created without a
+		// root object.
+		ea = append(ea, resWarn(field.line, field.col, "there is no object to resolve %s on", field.Name))
+		return
+	}
 	ov := reflect.ValueOf(obj)
 	var fd *FieldDef
 	var err error
